@@ -212,6 +212,8 @@ static uint64_t collect_ctr, collect_every;
 static uint8_t *wrapbuf;
 static const uint8_t gz_extra[5] = { 'a', 'p', 1, 0, 'X' };
 static const struct rh_gzip rich_hdr = { 1, 0x01020304, 2, 3, gz_extra, 5, "file.name", "a comment", 1 };
+/* headers with ONE optional field: these survive any split in isal_inflate's automatic header handling (the known finding needs two) */
+static const struct rh_gzip one_field_hdr[3] = { { 0, 0x01020304, 0, 3, gz_extra, 5, NULL, NULL, 0 }, { 0, 0x01020304, 0, 3, NULL, -1, "file.name", NULL, 0 }, { 0, 0x01020304, 0, 3, NULL, -1, NULL, "a comment", 0 } };
 
 static void collect_cb(const struct gstream *g, void *ctx)
 {
@@ -239,7 +241,8 @@ static void collect_cb(const struct gstream *g, void *ctx)
 	}
 	struct ostream *s = &OS[nOS++];
 	size_t te;
-	size_t wl = wrap_stream(mode, g->body, (rr.end_bit + 7) / 8, rr.end_bit, g->x, g->xlen, mode == ISAL_GZIP && (nOS % 2) ? &rich_hdr : NULL, wrapbuf, &te);
+	const struct rh_gzip *gh = mode != ISAL_GZIP ? NULL : nOS % 4 == 1 ? &rich_hdr : nOS % 4 == 3 ? &one_field_hdr[(nOS / 4) % 3] : NULL;
+	size_t wl = wrap_stream(mode, g->body, (rr.end_bit + 7) / 8, rr.end_bit, g->x, g->xlen, gh, wrapbuf, &te);
 	/* the streaming API is given exactly the stream (no junk): trailers of the non-verifying NO_HDR modes stay unread */
 	if (mode == ISAL_ZLIB_NO_HDR)
 		wl = te;
@@ -252,11 +255,11 @@ static void collect_cb(const struct gstream *g, void *ctx)
 	s->xlen = g->xlen;
 	s->crc_flag = mode;
 	s->hdrlen = 0;
-	if (mode == ISAL_GZIP && (nOS % 2)) {
+	if (gh == &rich_hdr) {
 		uint8_t hb[512];
 		s->hdrlen = rh_gzip_write(hb, &rich_hdr);
 	}
-	snprintf(s->desc, sizeof s->desc, "%s mode=%s%s", g->desc, cf_name[mode], mode == ISAL_GZIP && (nOS % 2) ? "+rich-header" : "");
+	snprintf(s->desc, sizeof s->desc, "%s mode=%s%s", g->desc, cf_name[mode], gh == &rich_hdr ? "+rich-header" : gh ? (gh->extra_len >= 0 ? "+extra-only-header" : gh->name ? "+name-only-header" : "+comment-only-header") : "");
 }
 static int all_mine(uint64_t id) { (void)id; return 1; }
 
@@ -535,7 +538,11 @@ static int def_call(int ci, int co, int flush, int eos_late, const struct ex_mod
 	DST->avail_in = (uint32_t)k;
 	DST->next_out = out;
 	DST->avail_out = (uint32_t)cap;
-	DST->end_of_stream = eos;
+	/* "non-zero if this is the last input buffer" (igzip_lib.h): the last-buffer flag is 1, 2 or 0x100, by input position */
+	{
+		static const uint16_t eosv[3] = { 1, 2, 0x100 };
+		DST->end_of_stream = eos ? eosv[(DCUR.in_off + DINLEN + DLEVEL) % 3] : 0;
+	}
 	DST->flush = flush;
 	uint32_t tin = DST->total_in, tout = DST->total_out;
 	int st_before = DST->internal_state.state;
@@ -577,6 +584,17 @@ static int def_call(int ci, int co, int flush, int eos_late, const struct ex_mod
 		DCUR.eos_announced = 1;
 	if (flush != NO_FLUSH)
 		DCUR.flush_budget--;
+	if (flush == SYNC_FLUSH)
+		DCUR.pad[0] = 1; /* a SYNC flush was requested somewhere in this history */
+	/* pad[2]: a FULL flush has been requested and has not completed yet (completion = a FULL_FLUSH call returning with all input consumed
+	 * and output space left). A caller that stops asking before that (NO_FLUSH while the request is open) has withdrawn it: what the
+	 * marker the codec may still emit means is then not defined by the interface, and the history is not judged marker by marker */
+	if (flush != FULL_FLUSH && DCUR.pad[2])
+		DCUR.pad[0] = 1;
+	if (flush == FULL_FLUSH) {
+		DCUR.pad[1] = 1;
+		DCUR.pad[2] = !(DST->avail_in == 0 && DST->avail_out > 0);
+	}
 	/* C14: a flush point is a SYNC/FULL call returning with all input consumed and output space left */
 	if (flush != NO_FLUSH && DST->avail_in == 0 && DST->avail_out > 0 && DST->internal_state.state != ZSTATE_END && DCUR.nflush < 8) {
 		DCUR.flush_at[DCUR.nflush] = DCUR.out_len;
@@ -666,6 +684,38 @@ static int def_verify_final(const struct ex_model *m, const char *what)
 			return 1;
 		}
 		v_outcome(v_hash(DCUR.out, DCUR.out_len, 5));
+		/* histories whose flush requests were ALL full flushes and were never withdrawn (every call between a FULL_FLUSH request and its
+		 * completion carried FULL_FLUSH too): every flush marker in the stream - also one written in the MIDDLE of a later call, after the
+		 * call that requested it had run out of output space - belongs to a completed full flush, so the stream must decode on its own
+		 * from behind each of them */
+		if (DCUR.pad[1] && !DCUR.pad[0]) {
+			size_t mk_off[16], mk_in[16];
+			int nmk = 0;
+			for (int b = 0; b < vs_res.nblocks && b < RI_MAXBLK && nmk < 16; b++)
+				if (vs_res.blk[b].type == 0 && !vs_res.blk[b].bfinal && vs_res.blk[b].out_start == vs_res.blk[b].out_end) {
+					mk_off[nmk] = vs_res.blk[b].bit_end / 8; /* bit offsets count from the start of the buffer, wrapper header included */
+					mk_in[nmk++] = vs_res.blk[b].out_end;
+				}
+			size_t trail = DGZ == IGZIP_GZIP || DGZ == IGZIP_GZIP_NO_HDR ? 8 : DGZ == IGZIP_ZLIB || DGZ == IGZIP_ZLIB_NO_HDR ? 4 : 0;
+			for (int i = 0; i < nmk; i++) {
+				struct ri_opts o;
+				memset(&o, 0, sizeof o);
+				vs_need(DINLEN + 64);
+				vs_res.out = vs_buf;
+				vs_res.out_cap = DINLEN + 64;
+				if (mk_off[i] + trail > DCUR.out_len)
+					continue;
+				ref_inflate(DCUR.out + mk_off[i], DCUR.out_len - trail - mk_off[i], &o, &vs_res);
+				size_t want = DINLEN - mk_in[i];
+				if (vs_res.verdict != RI_VALID || vs_res.out_len != want || memcmp(vs_buf, DIN + mk_in[i], want)) {
+					v_violation(key, "C14: only FULL flushes were requested, yet the stream does not decode on its own from behind the flush marker at output offset %zu (input offset %zu): %s %s; schedule [%s]",
+						    mk_off[i], mk_in[i], vs_res.verdict == RI_INVALID ? ri_class_name(vs_res.cls) : "wrong data", vs_res.why ? vs_res.why : "", m ? ex_path_str(m) : "");
+					nfail++;
+					return 1;
+				}
+				v_count("full_flush_markers_decoded_from", 1);
+			}
+		}
 		/* FULL flush independence: each suffix starting at a completed full-flush point decodes with an EMPTY window */
 		for (uint32_t i = 0; i < DCUR.nflush; i++) {
 			if (DCUR.flush_kind[i] != FULL_FLUSH)
